@@ -12,6 +12,7 @@ import (
 	"os/exec"
 	"path/filepath"
 	"runtime"
+	"runtime/pprof"
 	"sort"
 	"strconv"
 	"strings"
@@ -131,6 +132,9 @@ func violSig(v Violation) string {
 	sig := "viol:" + v.Oracle + "/" + v.Class
 	if v.Features != nil {
 		sig += " owner=" + v.Features["owner"] + " member=" + v.Features["member"] + " sym=" + v.Features["symptom"]
+		if x := v.Features["sigx"]; x != "" {
+			sig += " " + x
+		}
 	}
 	return sig
 }
@@ -200,6 +204,12 @@ func workerMain(args []string) {
 	}
 	if def.Risky {
 		c.caseOut = os.NewFile(3, "caseout")
+	}
+	if pf := os.Getenv("VERIF_PROF"); pf != "" && shard == 0 {
+		if f, err := os.Create(pf); err == nil {
+			pprof.StartCPUProfile(f)
+			defer pprof.StopCPUProfile()
+		}
 	}
 	func() {
 		defer func() {
@@ -276,7 +286,7 @@ func runWorker(def *CheckDef, tier string, shard, n int, deadline time.Time, ski
 	}
 	cmd := exec.Command(bin, "worker", def.ID, tier, strconv.Itoa(shard), strconv.Itoa(n),
 		strconv.FormatInt(deadline.Unix(), 10), strconv.FormatInt(skipTo, 10))
-	cmd.Env = append(os.Environ(), "GOMAXPROCS=2", "GOTRACEBACK=single")
+	cmd.Env = append(os.Environ(), "GOMAXPROCS=2", "GOTRACEBACK=single", "GOGC=400")
 	var stdout, stderr bytes.Buffer
 	cmd.Stdout = &stdout
 	cmd.Stderr = &limitWriter{w: &stderr, n: 1 << 16}
@@ -650,7 +660,7 @@ func replayBin(def *CheckDef) string {
 // process-death cases).
 func replayFails(def *CheckDef, path string, v Violation) bool {
 	cmd := exec.Command(replayBin(def), "replay", def.ID, path)
-	cmd.Env = append(os.Environ(), "GOMAXPROCS=2", "GOTRACEBACK=single")
+	cmd.Env = append(os.Environ(), "GOMAXPROCS=2", "GOTRACEBACK=single", "GOGC=400")
 	out, err := cmd.Output()
 	if err != nil {
 		return v.Class == "process-death"
